@@ -186,6 +186,13 @@ func (p *Plan) MaxRTT() time.Duration {
 	return m
 }
 
+// InstMaxRTT is MaxRTT restricted to one instance.
+func (p *Plan) InstMaxRTT(i int) time.Duration {
+	q := *p
+	q.Instances = []Inst{p.Instances[i]}
+	return q.MaxRTT()
+}
+
 func (p *Plan) AnyTakeover() bool {
 	for _, in := range p.Instances {
 		if in.Takeover {
